@@ -229,6 +229,15 @@ def operator_table(mod, fn: ast.FunctionDef):
             return {norm(k).split(".")[-1]: norm(v) for k, v in zip(d.keys, d.values)}, default, n
         if tbl is not None and isinstance(mod.assigns.get(tbl), (ast.Tuple, ast.List)) and all(isinstance(e, (ast.Tuple, ast.List)) and len(e.elts) == 2 for e in mod.assigns[tbl].elts):
             return {norm(e.elts[0]).split(".")[-1]: norm(e.elts[1]) for e in mod.assigns[tbl].elts}, default, n
+    # (b') a sequence of guard statements `if isinstance(op, K): return E` closed by the refusal
+    body = [s_ for s_ in fn.body if not (isinstance(s_, ast.Expr) and isinstance(s_.value, ast.Constant))]
+    guards = [(i, s_) for i, s_ in enumerate(body) if isinstance(s_, ast.If) and not s_.orelse and isinstance_kinds(s_.test) and len(s_.body) == 1 and isinstance(s_.body[0], (ast.Return, ast.Assign))]
+    if len(guards) >= 2 and [i for i, _ in guards] == list(range(guards[0][0], guards[0][0] + len(guards))) and len({isinstance_kinds(g.test)[0] for _, g in guards}) == 1:
+        entries = {}
+        for _, g in guards:
+            for k in isinstance_kinds(g.test)[1]:
+                entries[k] = norm(g.body[0].value)
+        return entries, classify_body(body[guards[-1][0] + 1:]), guards[0][1]
     # (b) isinstance chain
     for n in ast.walk(fn):
         if isinstance(n, ast.If) and isinstance_kinds(n.test):
